@@ -44,7 +44,9 @@ def prefixUpper : Bytes → Option Bytes
     | none => if c < 255 then some [c + 1] else none
 
 /-- `types.EmptyValue`: as an `end` argument it means "no upper bound". -/
-def emptyValue : Bytes := "FFFFFFFFemptyBVBiCj5jvE15pEiwro8TQRGnJSNsJF".toUTF8.toList
+-- the ASCII bytes of "FFFFFFFFemptyBVBiCj5jvE15pEiwro8TQRGnJSNsJF" (spelled out so that it reduces in proofs)
+def emptyValue : Bytes :=
+  [70, 70, 70, 70, 70, 70, 70, 70, 101, 109, 112, 116, 121, 66, 86, 66, 105, 67, 106, 53, 106, 118, 69, 49, 53, 112, 69, 105, 119, 114, 111, 56, 84, 81, 82, 71, 110, 74, 83, 78, 115, 74, 70]
 
 /-! ### ordered map -/
 
@@ -63,9 +65,15 @@ def erase : Map → Bytes → Map
   | [], _ => []
   | (k', v') :: m, k => if k' = k then m else (k', v') :: erase m k
 
+/-- the upper-bound condition: no bound (`none`), or `k` strictly below it. -/
+def belowUpper (u : Option Bytes) (k : Bytes) : Bool :=
+  match u with
+  | none => true
+  | some u => blt k u
+
 /-- `lo ≤ k` and, when `hi = some h`, `k < h`. -/
 def inRange (lo : Bytes) (hi : Option Bytes) (k : Bytes) : Bool :=
-  ble lo k && (match hi with | none => true | some h => blt k h)
+  ble lo k && belowUpper hi k
 
 /-- entries with key in `[lo, hi)`, ascending. -/
 def range (m : Map) (lo : Bytes) (hi : Option Bytes) : Map :=
@@ -205,6 +213,15 @@ def Iter.seek (it : Iter) (k : Bytes) : Iter × Bool :=
     (it2, it2.uValid && it2.valid)
   else (it1, it1.uValid)
 
+/-- the entries visited by `for ; it.Valid(); it.Next() { … }` from the current position
+(at most `fuel` of them). -/
+def Iter.drain : Nat → Iter → List Entry
+  | 0, _ => []
+  | fuel + 1, it => if it.valid then (it.key, it.value) :: Iter.drain fuel it.next.1 else []
+
+/-- `for it.Rewind(); it.Valid(); it.Next() { visit(it.Key(), it.Value()) }`. -/
+def Iter.scan (it : Iter) : List Entry := Iter.drain (it.ents.length + 1) it.rewind.1
+
 /-! ### goBadgerDBIt -/
 
 structure BIter where
@@ -290,5 +307,18 @@ def BIter.next (it : BIter) : Option (BIter × Bool) :=
                          | j + 1 => some j }
       else { it with pos := if i + 1 < it.all.length then some (i + 1) else none }
     some (it', it'.valid)
+
+/-- the entries visited by `for ; it.Valid(); it.Next()` on a badger iterator
+(`Next` is only called while valid, so it cannot panic here). -/
+def BIter.drain : Nat → BIter → List Entry
+  | 0, _ => []
+  | fuel + 1, it =>
+    if it.valid then
+      match it.next with
+      | some r => (it.key, it.value) :: BIter.drain fuel r.1
+      | none => [(it.key, it.value)]
+    else []
+
+def BIter.scan (it : BIter) : List Entry := BIter.drain (it.all.length + 1) it.rewind.1
 
 end C06
